@@ -162,6 +162,14 @@ pub fn build_template(t: &str, src: &Path, dst: &Path, names: &[&str]) {
             put_file(dst, head, b"IN SYNC", 1_600_200_000, 3);
         }
     }
+    // path ORDER traps: byte order and component order of these paths disagree ('.' < '/'); an in-sync file next
+    // to a one-sided directory of the same stem must still be recognised as in sync
+    put_file(src, "ord.t", b"in sync, sorts around ord/", 1_600_250_000, 0);
+    put_file(dst, "ord.t", b"IN SYNC, sorts around ord/", 1_600_250_000, 9);
+    put_file(dst, "ord/only-dst-3", b"dst only 3", 1_400_000_003, 0);
+    put_file(src, "sord.t", b"in sync, sorts around sord/", 1_600_250_001, 0);
+    put_file(dst, "sord.t", b"IN SYNC, sorts around sord/", 1_600_250_001, 9);
+    put_file(src, "sord/only-src", b"src only", 1_600_250_002, 0);
     put_file(src, "ex.x", b"source excluded by *.x", 1_600_100_000, 0);
     put_file(dst, "ex.x", b"dest version, must stay", 1_300_000_000, 0);
     put_file(dst, "old.x", b"dest only, excluded by *.x", 1_300_000_001, 0);
@@ -910,9 +918,8 @@ pub fn run_c14(ctx: &Ctx) -> ! {
             if out.code != Some(0) {
                 return None; // C04 judges failing first runs
             }
-            if c04_oracle(c, &p, &out).is_some() {
-                return None;
-            }
+            // C14 speaks about the run after ANY successful (exit 0) run: whether that first run delivered its
+            // plan is C04's question and does not excuse a second run that sends or changes something
             nontrivial.fetch_add(1, Ordering::Relaxed);
             evals.fetch_add(1, Ordering::Relaxed);
             second_run_check(c, &p).map(|(k, m)| Violation::new(&k, format!("[{}] {m}", cfg_name(c)), json!({"config": cfg_name(c)})).with("direction", json!(c.dir)))
